@@ -195,7 +195,9 @@ DoPassword ==
                       <<ValidateCb(Head1), Rv(ErrClass("28")), Rv(MsgReady), CloseEv>>})
           /\ Closed
        \/ \* the validator fails: close, an ErrorResponse is optional
-          /\ Head1.pw \in {"err", "errc"}      \* "errc": the error carries a SQLSTATE / severity of its own
+          \* "errc": the error carries a SQLSTATE / severity of its own; "gooderr": the validator reports an
+          \* error although it found the password to match (a failing audit step, say) - an error is a refusal
+          /\ Head1.pw \in {"err", "errc", "gooderr"}
           /\ EmitOne({<<ValidateCb(Head1), CloseEv>>,
                       <<ValidateCb(Head1), Rv(ErrAny), CloseEv>>,
                       <<ValidateCb(Head1), Rv(ErrAny), Rv(MsgReady), CloseEv>>})
